@@ -3,7 +3,7 @@ from .hireval import V, S, T, Sym, Closure, Range
 
 
 def show(t, depth=0):
-    if depth > 12:
+    if depth > 30:
         return "…"
     if isinstance(t, Sym):
         w = t.what
